@@ -188,6 +188,25 @@ def _wrap_val(val, stub):
     return v
 
 
+def uf_call(name, *args, default=None):
+    """Value of an uninterpreted function of the model at the given (native) arguments; `default(*args)` when the model has no table for it."""
+    table = (CTX.get("ufs") or {}).get(name)
+    if table is None or (not table["rows"] and table["else"] is None):
+        if default is None:
+            raise Undecodable(f"no model for {name}")
+        return default(*args)
+    ids = [_idof(a) for a in args]
+    for row_args, val in table["rows"]:
+        if [_unq(r) for r in row_args] == [_unq(i) for i in ids]:
+            return _parse_val(val)
+    return _parse_val(table["else"])
+
+
+def _unq(s):
+    s = str(s)
+    return s[1:-1] if len(s) >= 2 and s[0] == '"' and s[-1] == '"' else s
+
+
 class Undecodable(Exception):
     pass
 
